@@ -23,6 +23,9 @@ def scenario_set(pkidir):
             S.append(sc)
     for ver, mode in (("T12", "id"), ("T12", "ticket"), ("T13", "psk"), ("T11", "ticket")):
         S.append(dict(ver=ver, kx="followup", fam="r", suites="0xc02f", role="C", cb="none", cred="ok", pop="ok", carrier="none", mode=mode))
+    # the faulted connection is itself a resumption (session cache lookup, ticket / PSK decryption, X25519 key share under the fault)
+    for ver, mode in (("T12", "id+res"), ("T12", "ticket+res"), ("T13", "psk+res"), ("T13", "psk+res+x25519")):
+        S.append(dict(ver=ver, kx="followup", fam="r", suites="0xc02f", role="C", cb="none", cred="ok", pop="ok", carrier="none", mode=mode))
     return S
 
 TK = "/repo/testkeys"
@@ -30,9 +33,22 @@ def followup_script(sc, k):
     """a connection under the fault that stores resumption state in an application-owned handle, then - with fault
     injection off - a second connection using that handle: the library must have stayed consistent"""
     so = "ver=%s" % sc["ver"]
-    co = "ver=%s sid=R%s%s" % (sc["ver"], " tick=1" if sc["mode"] == "ticket" else "", "" if sc["ver"] == "T13" else " suites=0x2f" if sc["ver"] == "T11" else " suites=0xc02f")
-    L = ["failat %d" % k,
-         "keys ks id=%s/RSA/2048_RSA.pem,%s/RSA/2048_RSA_KEY.pem ca=%s/RSA/2048_RSA_CA.pem tickets=1" % (TK, TK, TK), "keys kc ca=%s/RSA/2048_RSA_CA.pem" % TK,
+    co = "ver=%s sid=R%s%s" % (sc["ver"], " tick=1" if sc["mode"].startswith("ticket") else "", "" if sc["ver"] == "T13" else " suites=0x2f" if sc["ver"] == "T11" else " suites=0xc02f")
+    if "x25519" in sc["mode"]:
+        so += " groups=29"; co += " groups=29"
+    KS = ["keys ks id=%s/RSA/2048_RSA.pem,%s/RSA/2048_RSA_KEY.pem ca=%s/RSA/2048_RSA_CA.pem tickets=1" % (TK, TK, TK), "keys kc ca=%s/RSA/2048_RSA_CA.pem" % TK]
+    if "+res" in sc["mode"]:
+        # keys and a first, fault-free connection that fills the handle; then the resumption under the fault; then a fault-free third connection
+        L = KS + ["new s9 server keys=ks %s" % so, "new c9 client keys=kc %s" % co, "link c9 s9", "pump c9 s9 max=60", "send c9 5", "pump c9 s9 max=8", "close c9", "pump c9 s9 max=6", "del c9", "del s9",
+                  "failat %d" % k,
+                  "new s0 server keys=ks %s" % so, "new c0 client keys=kc %s" % co, "link c0 s0", "pump c0 s0 max=60", "send c0 5", "send s0 2600", "send c0 3000", "pump c0 s0 max=8", "state c0", "state s0",
+                  "close c0", "pump c0 s0 max=6", "del c0", "del s0", "failoff", "sid R",
+                  "new s1 server keys=ks %s" % so, "new c1 client keys=kc %s" % co, "link c1 s1", "pump c1 s1 max=60", "send c1 5", "send s1 6", "pump c1 s1 max=8", "state c1", "state s1",
+                  "close c1", "pump c1 s1 max=6", "del c1", "del s1"]
+        # a resumed handshake has no certificate steps: MxAuth_Trace has no verifier to follow here (crash / leak / state rules apply)
+        meta = dict(role="C", cb="none", cred="ok", pop="ok", carrier="none", verifier="-", prover="-", ver=sc["ver"], kx="followup", eid=0)
+        return L, meta
+    L = ["failat %d" % k] + KS + [
          "new s0 server keys=ks %s" % so, "new c0 client keys=kc %s" % co, "link c0 s0", "pump c0 s0 max=60", "send c0 5", "send s0 2600", "send c0 3000", "pump c0 s0 max=8", "state c0", "state s0",
          "close c0", "pump c0 s0 max=6", "del c0", "del s0", "failoff", "sid R",
          "new s1 server keys=ks %s" % so, "new c1 client keys=kc %s" % co, "link c1 s1", "pump c1 s1 max=60", "send c1 5", "send s1 6", "pump c1 s1 max=8", "state c1", "state s1",
